@@ -4,15 +4,15 @@ from rules import shell as S
 
 
 def run(ctx):
-    K.chk1_registry(ctx)
-    K.chk2_who_builds_unchecked(ctx)
-    K.chk3_rewrite(ctx)
-    K.chk4_plan_to_operator(ctx)
-    K.chk5_factories(ctx)
-    K.chk6_operators_consume_flag(ctx)
-    K.chk7_scalar_implementations(ctx)
-    K.chk8_sum(ctx)
-    S.erv1_final_pass(ctx)
+    ctx.run(K.chk1_registry)
+    ctx.run(K.chk2_who_builds_unchecked)
+    ctx.run(K.chk3_rewrite)
+    ctx.run(K.chk4_plan_to_operator)
+    ctx.run(K.chk5_factories)
+    ctx.run(K.chk6_operators_consume_flag)
+    ctx.run(K.chk7_scalar_implementations)
+    ctx.run(K.chk8_sum)
+    ctx.run(S.erv1_final_pass)
     return ctx.finish(
         'Static analysis (syntax tree + compiler MIR) of the finite chain that carries "checked" '
         'from the SQL operator to the scalar implementation: registry rows, who may build '
